@@ -175,7 +175,7 @@ register(Prop("C02", c02_streams, compare=obs_filter(C02_OBS), oracle=c02_oracle
 
 
 # ------------------------------------------------------------------ C03
-C03_OBS = ["str", "scheme", "user", "password", "host", "port", "path", "query", "fragment", "raw_path", "raw_query_string", "raw_host"]
+C03_OBS = ["val", "str", "scheme", "user", "password", "host", "port", "path", "query", "fragment", "raw_path", "raw_query_string", "raw_host"]
 
 
 def c03_oracle(full, io, b):
@@ -195,6 +195,8 @@ def c03_oracle(full, io, b):
         inp = describe_handle(full, src)
         text = dec(s_src)
         cls = classify_c03(v, src, text)
+        if cls == "skip":
+            continue
         if not v.alive(h):
             out.append({"what": f"str(u) = {text!r} is rejected when parsed again ({io[n]})", "class": cls or "reparse-rejected", "n": n, "input": inp})
             continue
@@ -210,24 +212,44 @@ def c03_oracle(full, io, b):
     return out
 
 
+def valid_host(rh):
+    import ipaddress
+    if rh is None or rh == "":
+        return True
+    if not is_ascii(rh):
+        return False
+    if ":" in rh or "[" in rh or "]" in rh:
+        body, sep, zone = rh.partition("%")
+        try:
+            ipaddress.IPv6Address(body)
+            return True
+        except ValueError:
+            return bool(re.match(r"^v[0-9a-fA-F]+\.[A-Za-z0-9\-._~!$&'()*+,;=:]+$", rh))
+    return bool(re.match(r"^(?:[a-z0-9\-._~!$&'()*+,;=]|%[0-9a-fA-F]{2})*$", rh))
+
+
 def classify_c03(v, h, text):
-    """name the known, listed shapes (DESIGN.md section 9) so that only those are suppressed"""
+    """'skip' = outside the property's quantifier (scheme not RFC-valid, host not syntactically valid);
+    otherwise the name of a listed shape (DESIGN.md section 9) or None"""
     scheme = dec(v.get(h, "scheme") or "")
     rh = v.get(h, "raw_host")
-    rh = dec(rh) if rh and rh not in ("~",) and not rh.startswith("!") else None
+    if rh is not None and rh.startswith("!"):
+        return "skip"
+    rh = dec(rh) if rh and rh not in ("~",) else None
     path = dec(v.get(h, "raw_path") or "")
-    if not is_ascii(scheme) or (scheme and not re.match(r"^[a-z][a-z0-9+.\-]*$", scheme)):
-        return "invalid-scheme"
+    if scheme and not re.match(r"^[a-z][a-z0-9+.\-]*$", scheme):
+        return "skip"
+    if not valid_host(rh):
+        return "skip"
     if rh is None or rh == "":
         first = path.split("/")[0]
         if not scheme and ":" in first:
             return "colon-in-first-rootless-segment"
-    if rh is not None and (rh.startswith("v") and ":" in rh):
+        val = v.get(h, "val")
+        if scheme and path and not path.startswith("/") and val and val.startswith("L5:") and val[3:].split(",")[1] == "":
+            return "scheme-with-rootless-path-and-no-authority"
+    if rh is not None and rh.startswith("v") and ":" in rh:
         return "ipvfuture-host"
-    if rh is not None and ("[" in rh or "]" in rh):
-        return "bracket-in-host"
-    if rh is not None and not is_ascii(rh):
-        return "nonascii-host"
     return None
 
 
